@@ -4,7 +4,7 @@ NOT_BUILT = "check not built yet in this round (design in DESIGN.md section 3); 
 
 
 def fill(claim, na):
-    for p in ["C01", "C02", "C03", "C04", "C06", "C09", "C10", "C12", "C13",
+    for p in ["C01", "C02", "C03", "C04", "C06", "C10", "C12", "C13",
               "C15", "C16", "C18"]:
         na(p, NOT_BUILT)
     na("C05", "equality of decoded flux with the sector dump is a statement about decoding arbitrary bit-streams "
@@ -54,3 +54,12 @@ def fill(claim, na):
           "libraries under write failure is trusted, not analysed.",
           "Trusts: cout synchronised with stdio and sticky badbit/ferror; the stdout-writer call-graph closure.",
           "DESIGN.md 3/C11")
+    claim("C09",
+          "must-dataflow on the CFG: EOF tested before any use of a getc result, short-fread edge leaves with failure and "
+          "dominates the line decoder; static-storage write census; discarded-result and sticky-exit-status rules; "
+          "table/override contradiction folded per dialect",
+          "Decides the structural root causes for every input and truncation point (no byte is fabricated from EOF, no "
+          "stale buffer content reaches the decoder, failures reach a sticky exit status, no cross-file state). The "
+          "prefix relation itself is not decided. One known finding (0x7F) is listed.",
+          "Trusts C stdio return-value semantics and the enumerated clean-end justifications.",
+          "DESIGN.md 3/C09")
